@@ -400,6 +400,31 @@ func c17Lifecycle(c *core.Ctx, r *core.Rng) {
 		if r.Bool() {
 			s.SetValidityPolicy(func(...any) error { return nil })
 		}
+		// every other user closure and setting as well ("keeping ... options and policies": nothing of the configuration
+		// is the content's)
+		if r.Bool() {
+			s.SetLessFunc(func(i, j int) bool { return i > j })
+		}
+		if r.Bool() && kind != "BASIC" {
+			s.SetPresentationPolicy(func(...any) string { return "p" })
+		}
+		if r.Bool() {
+			s.SetEqualityPolicy(func(any, any) error { return nil })
+		}
+		if r.Bool() {
+			s.SetMarshaler(func(...any) error { return nil })
+			s.SetUnmarshaler(func(...any) ([]any, error) { return nil, nil })
+		}
+		if r.Bool() {
+			s.SetAuxiliary(stackage.Auxiliary{"k": "v"})
+			s.SetLogLevel(stackage.LogLevel(1 + r.Intn(4000)))
+		}
+		if r.Bool() && kind != "LIST" {
+			s.SetSymbol("&")
+		}
+		if r.Bool() {
+			s.SetEncap("'")
+		}
 		if r.Bool() {
 			s.SetMutex()
 		}
